@@ -568,6 +568,15 @@ Definition iff_verdict (p : nat * (list string * list (string * json) * list (st
           if negb ok200 then (0, "") else
           let forwarded := existsb (fun q => match fst q with EBatchDeliver _ _ => true | _ => false end) (from_exists (u_trace u)) in
           let want := must_forward (world_of (snd p) a) a in
+          (* every owned collection addressed in this world is offered to the application's filter (its members are who the
+             activity is forwarded to): ids that differ only in a fragment, the case of a letter, ... are different collections *)
+          let offered := flat_map (fun q => match fst q with
+                                            | EApp n (JArr l :: _) => if String.eqb n "FilterForwarding" then flat_map (fun e => match e with JStr s => [s] | _ => [] end) l else []
+                                            | _ => [] end) (u_trace u) in
+          let owned_addr := match addressed a with Ok l => owned_collections (world_of (snd p) a) l | _ => [] end in
+          if want && forwarded && negb (forallb (fun c => mem c offered) owned_addr)
+          then (1, "an owned collection addressed by the activity was not offered to the forwarding filter: its members do not receive the activity")
+          else
           if Bool.eqb want forwarded then (0, "")
           else if want then (1, "not seen before, an owned collection addressed and an owned value within the depth limit in this world - but the activity was not forwarded")
           else (1, "forwarded although in this world it was seen before, no owned collection is addressed or no owned value lies within the depth limit")
